@@ -58,9 +58,9 @@ C19_OPS = ("drop-copy", "drop-deepcopy", "name:array", "name:zeros", "delete", "
 C19_FILES = ("persim/images.py", "persim/visuals.py", "persim/bottleneck.py", "persim/wasserstein.py", "persim/heat.py",
              "persim/sliced_wasserstein.py", "persim/persistent_entropy.py", "persim/landscapes/exact.py",
              "persim/landscapes/approximate.py", "persim/gromov_hausdorff.py")
-# scopes no property talks about (the deprecated PersImage class, 3-D landscape plots)
+# scopes no property talks about (the deprecated PersImage class, the imager's own plot helpers, 3-D landscape plots)
 SKIP_SCOPES = {
-    "persim/images.py": {"PersImage"},
+    "persim/images.py": {"PersImage", "plot_diagram", "plot_image"},
     "persim/landscapes/visuals.py": {"plot_landscape", "plot_landscape_exact", "plot_landscape_approx"},
 }
 
